@@ -16,6 +16,7 @@ CORPUS = [
     ("order", '<li tal:omit-tag="" tal:attributes="id i" tal:content="i" tal:repeat="i l" tal:condition="l" '
               'tal:define="l l1">x</li>', {"l1": ["l", [["s", "a"], ["s", "b"]]]}),
     ("exists-repeat", '<p tal:repeat="i l1"><b tal:condition="exists:repeat/i">e</b></p>', {"l1": ["l", [["n", 1]]]}),
+    ("macro-extension", "", {}),
     ("macro", '<div metal:define-macro="m1"><span metal:define-slot="s">default</span> tail</div>'
               '<p metal:use-macro="macros/m1">zz<i metal:fill-slot="s" tal:content="v1">filled</i></p>',
      {"v1": ["s", "<V>"]}),
@@ -36,6 +37,13 @@ def corpus_nodes(name):
                              "attributes": "id i", "omit-tag": ""}, children=[T("x")], order=[5, 4, 3, 2, 1, 0])]
     if name == "exists-repeat":
         return [E("p", tal={"repeat": "i l1"}, children=[E("b", tal={"condition": "exists:repeat/i"}, children=[T("e")])])]
+    if name == "macro-extension":
+        # the METAL idiom of extending a macro: use-macro and define-macro on one element; and a macro whose root is a slot
+        return [E("b", metal={"define-macro": "m1"}, children=[T("M")]),
+                E("p", metal={"use-macro": "macros/m1", "define-macro": "m2"}, children=[T("x")]),
+                E("i", metal={"use-macro": "macros/m2"}, children=[T("y")]),
+                E("div", metal={"define-macro": "m3", "define-slot": "s"}, children=[T("D")]),
+                E("u", metal={"use-macro": "macros/m3"}, children=[T("z")])]
     if name == "macro":
         return [E("div", metal={"define-macro": "m1"},
                   children=[E("span", metal={"define-slot": "s"}, children=[T("default")]), T(" tail")]),
@@ -82,6 +90,22 @@ def classify(case, nodes, lib_nodes, r):
         if "compile_exc" in r:
             return "rejected_unclosed", None
         return "known:unclosed-tal-element", {"expected": "TemplateParseException (TAL/METAL elements must be balanced)"}
+    if case.get("duplicate"):
+        if "compile_exc" in r:
+            return "rejected_duplicate", None
+        leak = None
+        if r.get("snap0") and r.get("snap1") and r["snap0"]["localStack"] != r["snap1"]["localStack"]:
+            leak = {"localStack_before": r["snap0"]["localStack"], "localStack_after": r["snap1"]["localStack"]}
+        return "known:duplicate-statement", {"expected": "TemplateParseException (statement given twice / content with replace)",
+                                             "context_leak": leak}
+    if case.get("corpus") == "macro-extension":
+        try:
+            exp = tc.reference(case, nodes, lib_nodes)
+        except talref.OutOfScope:
+            exp = None
+        if "compile_exc" not in r and not r["exc"] and exp == r["out"]:
+            return "match", None
+        return "known:subtemplate-start", {"expected": exp, "exception": r.get("exc") or r.get("compile_exc")}
     if "compile_exc" in r:
         return "compile_error", {"exception": r["compile_exc"]}
     try:
@@ -138,11 +162,18 @@ def run(tier):
         case, nodes, lib_nodes = tc.make_case(rng, i, d, want=want)
         if lib_nodes is None and (i % 2 == 0 or not thorough):
             case["want"].append("trace")
-        if rng.random() < 0.01:
+        q = rng.random()
+        if q < 0.01:
             # a TAL element that is never closed (no enclosing end tag follows): must be rejected
             case["main"] += '<p tal:content="s1">tail'
             case["unclosed"] = True
             case["want"] = ["prog", "events"]
+        elif q < 0.02:
+            # a statement twice on one element / content together with replace: must be rejected
+            case["main"] += rng.choice(['<p tal:define="x s1" tal:define="y s2">dup</p>', '<p tal:content="s1" tal:replace="s2">both</p>',
+                                        '<p tal:repeat="i l1" tal:repeat="j l1">dup</p>', '<p tal:attributes="a s1" tal:attributes="b s2">dup</p>'])
+            case["duplicate"] = True
+            case["want"] = ["prog", "events", "snap"]
         cases.append(case)
         trees.append((nodes, lib_nodes))
     results = tc.run_cases(cases)
@@ -168,7 +199,12 @@ def run(tier):
         if status.startswith("known:") or status in ("mismatch", "exception", "compile_error"):
             found_here = True
             tag = status.split(":", 1)[1] if status.startswith("known:") else "expand-" + status
-            what = {"unclosed-tal-element": "the compiler accepts a template whose last TAL element is never closed: the program has "
+            what = {"duplicate-statement": "the compiler accepts a TAL statement given twice on one element (or tal:content together with "
+                                           "tal:replace) and emits both commands: two tal:define push the locals twice and pop them once "
+                                           "(the caller's context keeps a frame), two tal:repeat loop once",
+                    "subtemplate-start": "a macro / slot defined on an element that also carries use-macro or define-slot starts inside the "
+                                         "element (after its START_SCOPE): using it raises IndexError (pop from empty list)",
+                    "unclosed-tal-element": "the compiler accepts a template whose last TAL element is never closed: the program has "
                                             "an unbalanced scope and an undefined end-tag symbol (expansion raises KeyError)",
                     "content-text-keyword": "tal:content/replace with the `text` keyword evaluates the path \"text <expr>\" "
                                             "(compileCmdContent tests attProps[1] instead of attProps[0])",
@@ -177,6 +213,7 @@ def run(tier):
                     }.get(tag, "expansion differs from what TAL/TALES prescribe")
             rep = {"what": what, "case": tc.replay_doc(case, nodes, lib_nodes),
                    "expected": tc.short((detail or {}).get("expected"), 2000),
+                   "context_leak": (detail or {}).get("context_leak"),
                    "actual": tc.short(r.get("out"), 2000), "exception": r.get("exc") or r.get("compile_exc")}
             fnd.add(tag, rep, len(case["main"]))      # one replay per tag: the smallest template
             found = True
@@ -195,8 +232,8 @@ def run(tier):
             p = (r.get("prog") or {}).get(which)
             if p is None:
                 continue
-            if case.get("unclosed"):
-                continue          # reported above under its own tag
+            if case.get("unclosed") or case.get("duplicate") or case.get("corpus") == "macro-extension":
+                continue          # reported above under their own tags
             progs.append(p)
             prog_src.append((case, which))
             why = tc.py_wf(p)
@@ -306,7 +343,8 @@ def run(tier):
         "compile_model_cases": len(citems), "compile_mismatches": len(mism_c), "compile_shards": nsh_c,
         "compile_rejections_agreed": sum(1 for _, p in citems if p is None),
         "compiler_variant_detected": {"text_keyword_fixed": variant[0], "cdata_passthrough_fixed": variant[1],
-                                      "unclosed_tal_rejected": variant[2]},
+                                      "unclosed_tal_rejected": variant[2], "duplicate_statements_rejected": variant[3],
+                                      "subtemplates_start_at_element": variant[4]},
         "vm_traces_followed_in_coq": len(titems), "trace_mismatches": len(mism_t), "trace_shards": nsh_t,
         "traces_skipped": skipped_trace,
         "trace_steps": sum(len(t["entries"]) for _, t in titems),
